@@ -8,25 +8,23 @@ def optStr : Option String → String
   | some s => s
   | none => ""
 
-/-- `Ord for Option<String>`: `None` first, then by string -/
-def optLt : Option String → Option String → Bool
-  | none, none => false
-  | none, some _ => true
-  | some _, none => false
-  | some a, some b => decide (a < b)
+/-- the sort key of `impl Ord for TxnHeader`: instant, code or "", description or "", uuid text or "",
+    then the tie-breaks "code present", "description present" (absent sorts before empty) -/
+def hdrKey (h : Header) : Int × String × String × String × Bool × Bool :=
+  (h.ts.ns, optStr h.code, optStr h.desc, optStr h.uuid, h.code.isSome, h.desc.isSome)
 
-/-- the sort key of `impl Ord for TxnHeader`: (instant, code, description, uuid text or "") -/
-def hdrKey (h : Header) : Int × Option String × Option String × String :=
-  (h.ts.ns, h.code, h.desc, optStr h.uuid)
+def boolLt (a b : Bool) : Bool := !a && b
 
 /-- `a ≤ b` in the header order (lexicographic on the key) -/
 def hdrLe (a b : Header) : Bool :=
   let ka := hdrKey a
   let kb := hdrKey b
   if ka.1 < kb.1 then true else if kb.1 < ka.1 then false
-  else if optLt ka.2.1 kb.2.1 then true else if optLt kb.2.1 ka.2.1 then false
-  else if optLt ka.2.2.1 kb.2.2.1 then true else if optLt kb.2.2.1 ka.2.2.1 then false
-  else !(kb.2.2.2 < ka.2.2.2)
+  else if ka.2.1 < kb.2.1 then true else if kb.2.1 < ka.2.1 then false
+  else if ka.2.2.1 < kb.2.2.1 then true else if kb.2.2.1 < ka.2.2.1 then false
+  else if ka.2.2.2.1 < kb.2.2.2.1 then true else if kb.2.2.2.1 < ka.2.2.2.1 then false
+  else if boolLt ka.2.2.2.2.1 kb.2.2.2.2.1 then true else if boolLt kb.2.2.2.2.1 ka.2.2.2.2.1 then false
+  else !(boolLt kb.2.2.2.2.2 ka.2.2.2.2.2)
 
 def txnLe (a b : Txn) : Bool := hdrLe a.header b.header
 
